@@ -2,16 +2,11 @@
    accepts (model/StateProof.v).  Binary search over the committed prefix sums, the reveal
    loop invariant, and the final check against [accept_facts]. *)
 From Coq Require Import NArith ZArith List Bool Lia ZifyN ZifyNat ZifyBool.
-From Verif.model Require Import SpWeights StateProof.
+From Verif.model Require Import SpWeights StateProof StateProofSpec.
 From Verif.proofs Require Import SpWeightsProofs StateProofProofs.
 Import ListNotations.
 Open Scope N_scope.
 Ltac Zify.zify_post_hook ::= Z.div_mod_to_equations.
-
-Fixpoint sumw {Sig} (sigs : list (slot Sig)) : N :=
-  match sigs with [] => 0 | s :: r => sl_weight s + sumw r end.
-Fixpoint totw {PK} (parts : list (participant PK)) : N :=
-  match parts with [] => 0 | p :: r => pt_weight p + totw r end.
 
 Lemma F2_length : forall A B (R : A -> B -> Prop) la lb, Forall2 R la lb -> length la = length lb.
 Proof. intros A B R la lb H. induction H; cbn [length]; congruence. Qed.
@@ -156,6 +151,10 @@ Section Honest.
   Local Notation verifyM := (verify salt_ok commit_ok sig_ok coin prf_depth vcs_verify vcp_verify).
   Local Notation createM := (createProof scheme_salt commit_ok coin vcs_root vcs_prove vcp_root vcp_prove).
   Local Notation isValidM := (isValid scheme_salt salt_ok commit_ok sig_ok).
+  Local Notation cslot_ok := (StateProofSpec.cslot_ok scheme_salt salt_ok commit_ok sig_ok).
+  Local Notation slot_ok := (StateProofSpec.slot_ok scheme_salt salt_ok commit_ok sig_ok).
+  Local Notation wf := (StateProofSpec.wf scheme_salt salt_ok commit_ok sig_ok).
+  Local Notation built := (StateProofSpec.built sig0 scheme_salt salt_ok commit_ok sig_ok).
 
   (* lia generalises over every hypothesis in sight and so drags unrelated section variables into
      the proof terms: drop the ones the goal does not mention first *)
@@ -163,20 +162,6 @@ Section Honest.
                 try clear vcs_root; try clear vcp_root; try clear vcs_verify; try clear vcp_verify;
                 try clear salt_ok; try clear commit_ok; try clear sig_ok; try clear prf_depth; try clear coin.
   Ltac lia_ := prune; lia.
-
-  (* ---- well-formed prover states ---- *)
-  (* a slot, ignoring L: empty (weight 0) or holding a signature that passed IsValid *)
-  Definition cslot_ok (round : N) (data : Msg) (p : participant PK) (s : slot Sig) : Prop :=
-    commit_ok (sc_sig (sl_c s)) = true /\
-    (sl_weight s = 0 \/
-     (sl_weight s = pt_weight p /\ salt_ok (sc_sig (sl_c s)) scheme_salt = true /\
-      sig_ok (pt_pk p) round data (sc_sig (sl_c s)) = true)).
-  Definition slot_ok (round : N) (data : Msg) (p : participant PK) (s : slot Sig) : Prop :=
-    sc_L (sl_c s) = 0 /\ cslot_ok round data p s.
-
-  Definition wf (b : builder PK Sig Msg) : Prop :=
-    Forall2 (slot_ok (b_round b) (b_data b)) (b_parts b) (b_sigs b) /\
-    b_sw b = sumw (b_sigs b) /\ totw (b_parts b) < W64.
 
   Lemma slots_le_total : forall round data parts sigs,
     Forall2 (cslot_ok round data) parts sigs -> sumw sigs <= totw parts.
@@ -193,10 +178,10 @@ Section Honest.
     commit_ok sig0 = true -> totw parts < W64 ->
     wf (makeProver sig0 data round pw lnpw parts st).
   Proof.
-    intros data round pw lnpw parts st H0 Ht. unfold wf, makeProver. cbn.
+    intros data round pw lnpw parts st H0 Ht. unfold StateProofSpec.wf, makeProver. cbn.
     repeat split; [| |exact Ht].
     - induction parts as [|p r IH]; cbn [length repeat]; constructor.
-      + unfold slot_ok, cslot_ok. cbn. auto.
+      + unfold StateProofSpec.slot_ok, StateProofSpec.cslot_ok. cbn. auto.
       + apply IH. cbn [totw] in Ht. lia_.
     - clear. induction (length parts) as [|n IH]; cbn [repeat sumw sl_weight]; [reflexivity|]. rewrite <- IH. reflexivity.
   Qed.
@@ -245,19 +230,19 @@ Section Honest.
     destruct (sig_ok (pt_pk p) (b_round b) (b_data b) sig) eqn:ESig; cbn [negb] in HV; [|discriminate].
     destruct (commit_ok sig) eqn:ECom; cbn [negb] in HV; [|discriminate].
     destruct (N.eqb_spec (sl_weight s) 0) as [Hs0|]; cbn [negb] in HA; [|discriminate].
-    inversion HA; subst b'; clear HA. unfold wf. cbn [b_round b_data b_parts b_sigs b_sw].
+    inversion HA; subst b'; clear HA. unfold StateProofSpec.wf. cbn [b_round b_data b_parts b_sigs b_sw].
     pose proof (Forall2_nth _ _ _ _ _ _ _ _ HF EP ES) as (HL & _).
     pose proof (slots_le_total _ _ _ _ (Forall2_slot_cslot _ _ _ _ HF)) as Hle.
     pose proof (sumw_set_nth _ (b_sigs b) _ _ (mkSlot (pt_weight p) (mkSlotC sig (sc_L (sl_c s)))) ES) as HS.
     cbn [sl_weight] in HS.
     repeat split; [| |exact Ht].
     - eapply Forall2_set_nth; [exact HF | exact EP |].
-      unfold slot_ok, cslot_ok. cbn [sl_c sc_L sc_sig sl_weight]. repeat split; auto.
+      unfold StateProofSpec.slot_ok, StateProofSpec.cslot_ok. cbn [sl_c sc_L sc_sig sl_weight]. repeat split; auto.
     - rewrite Hsw.
       assert (X : Forall2 (cslot_ok (b_round b) (b_data b)) (b_parts b)
                           (set_nth (b_sigs b) (N.to_nat pos) (mkSlot (pt_weight p) (mkSlotC sig (sc_L (sl_c s)))))).
       { eapply Forall2_set_nth; [apply Forall2_slot_cslot; exact HF | exact EP |].
-        unfold cslot_ok. cbn [sl_c sc_sig sl_weight]. auto. }
+        unfold StateProofSpec.cslot_ok. cbn [sl_c sc_sig sl_weight]. auto. }
       apply slots_le_total in X. rewrite wadd_small by lia_. lia_.
   Qed.
 
@@ -266,7 +251,7 @@ Section Honest.
     Forall2 (cslot_ok round data) parts sigs -> Forall2 (cslot_ok round data) parts (commitL_from a sigs).
   Proof.
     intros round data parts sigs a H. revert a. induction H as [|p s ps ss Hs _ IH]; intros a; cbn [commitL_from]; constructor.
-    - unfold cslot_ok in *. cbn [sl_c sc_sig sl_weight]. exact Hs.
+    - unfold StateProofSpec.cslot_ok in *. cbn [sl_c sc_sig sl_weight]. exact Hs.
     - apply IH.
   Qed.
 
@@ -444,7 +429,7 @@ Section Honest.
         destruct (I3 q r HI) as (s & p & _ & B & C & _). subst r. cbn [rv_part]. congruence. }
     rewrite EPP.
     eexists. split; [reflexivity|]. cbn [sp_sw sp_positions]. split; [|split; [reflexivity | lia_]].
-    apply verify_ok_iff. unfold accept_facts, seed_of.
+    apply verify_ok_iff. unfold StateProofSpec.accept_facts, seed_of.
     cbn [sp_sigproofs sp_partproofs sp_sw sp_positions sp_reveals sp_salt sp_sigcommit v_lnpw v_st v_partcom].
     split; [exact EDS|]. split; [exact EDP|].
     split. { rewrite I0, Z2Nat.id by lia_. apply prover_satisfies_verifier_l. exact Hnr. }
@@ -455,7 +440,63 @@ Section Honest.
     intros i pos Hi. cbn [Nat.add]. apply I4. exact Hi.
   Qed.
 
+  (* ---- provers as the node builds them: MakeProver, then IsValid(.., true) + Add ---- *)
+  Lemma built_wf : forall data round pw lnpw parts st b,
+    commit_ok sig0 = true -> totw parts < W64 ->
+    built true data round pw lnpw parts st b ->
+    wf b /\ b_parts b = parts /\ b_data b = data /\ b_round b = round /\ b_lnpw b = lnpw /\ b_st b = st /\ b_pw b = pw.
+  Proof.
+    intros data round pw lnpw parts st b H0 Ht H. induction H as [|b pos sig b' Hb IH HV HA].
+    - split; [apply makeProver_wf; assumption|]. cbn. repeat split; reflexivity.
+    - destruct IH as (Hwf & E1 & E2 & E3 & E4 & E5 & E6).
+      split; [eapply add_wf; eassumption|].
+      unfold add in HA. destruct (present b pos) as [[|]| | |]; try discriminate.
+      destruct (nth_error (b_parts b) (N.to_nat pos)); [|discriminate].
+      destruct (nth_error (b_sigs b) (N.to_nat pos)); [|discriminate].
+      inversion HA; subst b'. cbn. repeat split; assumption.
+  Qed.
+
+  Theorem honest_verifies_built : forall data round pw lnpw parts st b nr,
+    commit_ok sig0 = true -> totw parts < W64 -> (length parts <= 1024)%nat ->
+    vc_complete vcs_root vcs_prove vcs_verify prf_depth ->
+    vc_complete vcp_root vcp_prove vcp_verify prf_depth ->
+    (forall sd j, 0 < sd_sw sd -> coin sd j < sd_sw sd) ->
+    built true data round pw lnpw parts st b ->
+    ready b = true ->
+    numReveals (Z.of_N (b_sw b)) (Z.of_N lnpw) (Z.of_N st) = WOk nr ->
+    exists s, createM b = SOk s /\
+      verifyM (mkVerifier st lnpw (vcp_root parts)) round data s = SOk tt.
+  Proof.
+    intros data round pw lnpw parts st b nr H0 Ht Hn Hvs Hvp Hc Hb Hr Hnr.
+    destruct (built_wf _ _ _ _ _ _ _ H0 Ht Hb) as (Hwf & E1 & E2 & E3 & E4 & E5 & E6).
+    subst. destruct (honest_verifies b nr Hwf Hn Hvs Hvp Hc Hr Hnr) as (s & A & B & _).
+    exists s. split; assumption.
+  Qed.
+
   (* the other outcomes of CreateProof on a well-formed prover *)
   Lemma createProof_not_ready : forall b, ready b = false -> createM b = SErr ENotReady.
   Proof. intros b H. unfold createProof. rewrite H. reflexivity. Qed.
 End Honest.
+
+(* ---- REFUTED before /verif/fixes/C39.patch: IsValid(.., true) + Add accept a signature that
+   verifies but cannot be committed; CreateProof then fails whatever the signed weight.  The
+   instance: one participant of weight 10, proven weight 3 (lnProvenWeight 72000), target 4;
+   signature 1 verifies and is not committable (the real one: a genuine signature with
+   SingleLeafProof.TreeDepth = 17, replayed by the harness). ---- *)
+Definition u_commit_ok (sig : N) : bool := negb (sig =? 1).
+Definition u_parts : list (participant N) := [mkPart 7 10].
+Definition u_b0 : builder N N N := makeProver 0 0 0 3 72000 u_parts 4.
+Definition u_b1 : builder N N N :=
+  mkB 0 0 u_parts 72000 3 4 [mkSlot 10 (mkSlotC 1 0)] 10.
+
+Lemma valid_sig_uncommittable_witness :
+  StateProofSpec.built 0 0 (fun _ _ => true) u_commit_ok (fun _ _ _ _ => true) false 0 0 3 72000 u_parts 4 u_b1 /\
+  ready u_b1 = true /\
+  numReveals (Z.of_N (b_sw u_b1)) 72000 4 = WOk 3%Z /\
+  createProof (Dig := N) (Prf := N) 0 u_commit_ok (fun _ _ => 0) (fun _ => 0) (fun _ _ => Some 0)
+              (fun _ => 0) (fun _ _ => Some 0) u_b1 = SErr ECommit /\
+  isValid 0 (fun _ _ => true) u_commit_ok (fun _ _ _ _ => true) u_b0 0 1 true = SErr ECommit.
+Proof.
+  split; [|vm_compute; repeat split; reflexivity].
+  eapply built_add with (b := u_b0) (pos := 0) (sig := 1); [apply built_init | reflexivity | reflexivity].
+Qed.
